@@ -223,7 +223,17 @@ let () =
           let chunks = split_at delivered (List.sort compare offs) 0 in
           let url = bytes_of_string (Printf.sprintf "http://127.0.0.1:PORT%d/%s" i target) in
           servers := !servers @ [{ s_id = z_of_int i; s_url = url; s_env = e }];
-          infos := !infos @ [(status, no_head, delivered, List.map List.length chunks, ending, url)];
+          (* where the response finally comes from: the last location of the server's redirect chain (6th field V<code>:<hex>..) *)
+          let final_url =
+            if Array.length parts > 5 && String.length parts.(5) > 0 && parts.(5).[0] = 'V' then begin
+              let fs = String.split_on_char ':' (String.sub parts.(5) 1 (String.length parts.(5) - 1)) in
+              let last = List.nth fs (List.length fs - 1) in
+              let loc = String.concat "" (List.map (fun b -> String.make 1 (Char.chr (int_of_z b))) (unhex last)) in
+              let has_scheme = (try ignore (Str.search_forward (Str.regexp_string "://") loc 0); true with Not_found -> false) in
+              let loc = Str.global_replace (Str.regexp_string "PORTSELF") (Printf.sprintf "PORT%d" i) loc in
+              bytes_of_string (if has_scheme then loc else Printf.sprintf "http://127.0.0.1:PORT%d%s" i loc)
+            end else url in
+          infos := !infos @ [(status, no_head, delivered, List.map List.length chunks, ending, final_url)];
           scripts := !scripts @ [script_events (z_of_int status) no_head chunks (z_of_int ending)]
         done;
         let pre_kind, pre_c =
@@ -267,8 +277,8 @@ let () =
            entry, tmp directory and leaf directory must be what C16/Model.v predicts (and hence what the real code does) *)
         let stream_agree =
           if locals <> [] || !race <> None || pre_kind = 1 then true else begin
-            let ss = List.map2 (fun srv (status, no_head, delivered, sizes, ending, _) ->
-                (srv, resp_of (z_of_int status) no_head delivered (List.map z_of_int sizes) (ending <> 0))) !servers !infos in
+            let ss = List.map2 (fun srv (status, no_head, delivered, sizes, ending, final_url) ->
+                (srv, resp_of (z_of_int status) no_head final_url delivered (List.map z_of_int sizes) (ending <> 0))) !servers !infos in
             let ((((kind, (a, b)), u), f'), lg) = stream_lookup f0 ss in
             let ((c2, (a2, b2)), u2) = o_result s1 in
             let sc = function Some (File b) -> "F" ^ hex_of b | Some Dir -> "D" | None -> "-" in
